@@ -561,9 +561,16 @@ class GroupBy:
             return
 
         if self._group_key_pointers is not None:
-            chunks = [
-                p[k] for p, k in zip(self._group_key_pointers, self._group_ikey.chunks)
-            ]
+            chunks = []
+            for pointer, codes in zip(
+                self._group_key_pointers, self._group_ikey.chunks
+            ):
+                codes = codes.to_numpy()
+                # the null code (-1) stays null: it must not index the pointer from the end
+                unified = np.full(len(codes), -1, dtype=np.int64)
+                not_null = codes >= 0
+                unified[not_null] = pointer[codes[not_null]]
+                chunks.append(unified)
             self._group_key_pointers = None
         elif keep_chunked:
             # no pointers to unify, but we want to keep chunked so do nothing
